@@ -14,6 +14,7 @@ import (
 
 	"github.com/cosi-project/runtime/pkg/controller/runtime/zzverif/simrt"
 	"github.com/cosi-project/runtime/pkg/resource"
+	"github.com/cosi-project/runtime/pkg/resource/kvutils"
 	"github.com/cosi-project/runtime/pkg/state"
 )
 
@@ -394,6 +395,17 @@ func applyMut(r resource.Resource, op CrudOp) {
 	case strings.HasPrefix(op.Mut, "label:"):
 		kv := strings.SplitN(op.Mut[6:], "=", 2)
 		r.Metadata().Labels().Set(kv[0], kv[1])
+	case strings.HasPrefix(op.Mut, "labeldo:"):
+		// the batch API: several label edits on a temporary copy-on-write view
+		kv := strings.SplitN(op.Mut[8:], "=", 2)
+		r.Metadata().Labels().Do(func(tmp kvutils.TempKV) {
+			if _, ok := tmp.Get("never"); ok {
+				tmp.Delete("never")
+			}
+			tmp.Set(kv[0], kv[1])
+		})
+	case strings.HasPrefix(op.Mut, "unlabel:"):
+		r.Metadata().Labels().Delete(op.Mut[8:])
 	}
 }
 
